@@ -34,4 +34,12 @@ Arguments Ok {A} a. Arguments Diag {A} class. Arguments Panic {A} site.
 
 Definition bind {A B} (r : res A) (f : A -> res B) : res B :=
   match r with Ok a => f a | Diag c => Diag c | Panic s => Panic s end.
+Definition res_eqb {A} (e : A -> A -> bool) (x y : res A) : bool :=
+  match x, y with
+  | Ok a, Ok b => e a b
+  | Diag c, Diag d => N.eqb c d
+  | Panic _, Panic _ => true
+  | _, _ => false
+  end.
+
 Notation "'do' x <- r ; k" := (bind r (fun x => k)) (at level 200, x pattern, r at level 100, k at level 200).
